@@ -340,6 +340,15 @@ RejectedAbout(o, flag) == Has(o, "compile") /\ o.compile.outcome = "reject" /\ f
 C14(c, o) ==
   IF HasS(c) /\ ValidAll(o) /\ RetOk(o) /\ RejectedAbout(o, "entry")
   THEN [ dom |-> TRUE, fails |-> { "the module does not compile and the compiler points at the entry point items [predicted=" \o ToJson(CP!PredictedCauses(c.S, c.opts)) \o "]: " \o o.compile.errors[1] } ] ELSE
+  (* a module the validator would refuse (validation is off by default) but the generator accepted and rustc compiled: only the   *)
+  (* structural promise is judged - one buffer per struct parameter of every vertex entry                                        *)
+  IF HasS(c) /\ ParseOk(o) /\ ~ValidAll(o) /\ c.opts.validate = "none" /\ RetOk(o) /\ Compiled(o) /\ ProbeFail(o, "entries") = {} THEN
+    [ dom |-> TRUE, fails |->
+        UNION { LET e == EN!EntriesOf(c.S, "vertex")[i]
+                    m == SelectSeq(EntEv(o, "rt.vertex_entry"), LAMBDA x : x.fn = e.name \o "_entry")
+                IN IF Len(m) # 1 THEN {}
+                   ELSE Chk(Len(m[1].buffers) = Len(EN!StructParams(e)), "vertex helper of " \o e.name \o " has " \o Str(Len(m[1].buffers)) \o " buffers for " \o Str(Len(EN!StructParams(e))) \o " struct parameters")
+                : i \in DOMAIN EN!EntriesOf(c.S, "vertex") } ] ELSE
   IF ~(HasS(c) /\ ValidAll(o) /\ RetOk(o) /\ Compiled(o)) THEN NoVerdict ELSE
   LET S == c.S
       E == S.entries
